@@ -38,13 +38,6 @@ theorem release_of_none {hp : Heap} {a : Nat} (h : hp.get? a = none) : hp.releas
     | live b' => cases h
     | freed => rfl
 
-/-- the outcome of a `Result<(), ReserveError>` method, as the hand model's `Res Unit` -/
-def resOf : Step (Rs Unit) (Rs Unit) → Res Unit
-  | .next (.ok _) s | .done (.ok _) s => .ok () s.hp s.self
-  | .next .err s | .done .err s => .err s.hp s.self
-  | .pidx s => .pidx s.hp s.self
-  | .ub u => .ub u
-
 /-- every live block holds exactly `cap` bytes -/
 def DataOk (hp : Heap) : Prop := ∀ a b, hp.get? a = some b → b.data.length = b.cap
 /-- an inline handle has its 16 raw bytes -/
@@ -68,12 +61,6 @@ theorem textOf_stat_len {hp : Heap} {st : List Bytes} {i l : Nat} {t : Bytes} (h
     by_cases hl : l ≤ t0.length
     · rw [if_pos hl] at ht; injection ht with ht; rw [← ht, List.length_take]; omega
     · rw [if_neg hl] at ht; cases ht
-
-/-- the outcome of a method returning `()` -/
-def resV : Step Unit Unit → Res Unit
-  | .next _ s | .done _ s => .ok () s.hp s.self
-  | .pidx s => .pidx s.hp s.self
-  | .ub u => .ub u
 
 /-! ### ties in the form a *caller* can rewrite with -/
 
